@@ -17,9 +17,9 @@ TOOL_SRC = os.path.join(VERIF, "replay_tool")
 
 # annotation `replay=scenario:<name>` -> scenarios of replay_tool to run, in order
 MAP = {
-    "commit_events": ["events", "crash", "fault"],
+    "commit_events": ["events", "visibility", "crash", "fault"],
     "crash": ["crash"],
-    "non_durable": ["events", "crash"],
+    "non_durable": ["events", "visibility", "crash"],
     "shutdown": ["crash", "close", "fault"],
     "fault": ["fault", "crash"],
     "close": ["close"],
